@@ -535,6 +535,20 @@ theorem rejects_count_mismatch (bytes : List Nat) :
     | err => rfl
     | panic => exact absurd hp (parse_total bytes)
 
+/-- MALFORMED FOOTER, on `parse` itself: a version-1 zone has no rule; for versions 2 and 3 the footer
+of an accepted file (`accepted_layout`: newline-framed) is valid UTF-8, its TZ string — the footer
+without surrounding ASCII white space — neither starts with `:` nor contains a NUL, and it is either
+empty with no rule in the zone, or a string of the TZ grammar DENOTING the zone's rule (the extension
+flag being that of the second header's version).  Any other footer is therefore rejected. -/
+theorem accepted_footer (bytes : List Nat) (z : Zone) (h : parse bytes = .ok z) :
+    (versionOf ((bytes.drop 4).take 1) = some .V1 → z.rule = none)
+      ∧ (versionOf ((bytes.drop 4).take 1) ≠ some .V1 →
+          validUtf8 (footerOf bytes) = true ∧ (trimWs (footerOf bytes)).head? ≠ some 58
+            ∧ 0 ∉ trimWs (footerOf bytes)
+            ∧ ((trimWs (footerOf bytes) = [] ∧ z.rule = none)
+                ∨ ∃ ext x, z.rule = some x ∧ Denotes ext (trimWs (footerOf bytes)) x)) :=
+  accepted_footer' bytes z h
+
 /-- THE READER'S VALUE ON EVERY WRITTEN FILE, versions 2 and 3.  For every file written by the
 specification's writer whose counts fit the header (`BlockShape`) and whose values merely fit their
 fields (`BlockFits`: times `i64`, offsets and corrections `i32` — NO condition on order, indices,
